@@ -150,7 +150,7 @@ func (ps *PartitionSet) Partition(position int) int {
 // Returns the name of the partition associated to the given index
 // If the code does not exist, then returns ""
 func (ps *PartitionSet) PartitionName(code int) string {
-	if code < 0 || code > len(ps.names) {
+	if code < 0 || code >= len(ps.names) {
 		return ""
 	}
 	return ps.names[code]
@@ -159,7 +159,7 @@ func (ps *PartitionSet) PartitionName(code int) string {
 // Returns the name of the modele associated to the given index
 // If the code does not exist, then returns ""
 func (ps *PartitionSet) ModeleName(code int) string {
-	if code < 0 || code > len(ps.models) {
+	if code < 0 || code >= len(ps.models) {
 		return ""
 	}
 	return ps.models[code]
